@@ -993,6 +993,21 @@ class Lib:
         return None
 
     def binop_ext(self, interp, op, a, b, node):
+        ca = isinstance(a, SObj) and a.cls == "complex"
+        cb = isinstance(b, SObj) and b.cls == "complex"
+        if (ca or cb) and op in ("+", "-", "*", "/") and (ca or isinstance(a, SCALAR)) and (cb or isinstance(b, SCALAR)):
+            ar, ai = (a.attrs["real"], a.attrs["imag"]) if ca else (a, 0)
+            br, bi = (b.attrs["real"], b.attrs["imag"]) if cb else (b, 0)
+            A_ = lambda o, x, y: arith(o, x, y)
+            if op in ("+", "-"):
+                return self.make_complex(A_(op, ar, br), A_(op, ai, bi))
+            if op == "*":
+                return self.make_complex(A_("-", A_("*", ar, br), A_("*", ai, bi)), A_("+", A_("*", ar, bi), A_("*", ai, br)))
+            den = A_("+", A_("*", br, br), A_("*", bi, bi))
+            return self.make_complex(A_("/", A_("+", A_("*", ar, br), A_("*", ai, bi)), den),
+                                     A_("/", A_("-", A_("*", ai, br), A_("*", ar, bi)), den))
+        if (ca or cb) and op == "**":
+            return self.make_complex(SReal(z3.Real(fresh("cpow.re"))), SReal(z3.Real(fresh("cpow.im"))))
         sm_a = isinstance(a, SOpaque) and a.tag == "structmat"
         sm_b = isinstance(b, SOpaque) and b.tag == "structmat"
         if sm_a or sm_b:
@@ -1249,6 +1264,20 @@ class Lib:
             init = interp.module.module_of(cls.qual).class_member(cls.qual.split("::")[1], "__init__")
             obj = SObj(cls.qual.split("::")[1], {})
             return interp.ctx.call_contract(interp, c, init[1], [obj] + args, kwargs, node)
+        # no contract: run the real __init__ on a fresh object (small constructors such as CObs.__init__)
+        mod = interp.module.module_of(cls.qual)
+        init = mod.class_member(cls.qual.split("::")[1], "__init__")
+        if init is not None and len(init[1].body) <= 6:
+            obj = SObj(cls.qual.split("::")[1], {})
+            saved = interp.module
+            interp.module = mod
+            try:
+                env = Env(None)
+                interp.bind_args(init[1], [obj] + list(args), kwargs, node, env)
+                interp.run_body(init[1].body, env)
+            finally:
+                interp.module = saved
+            return obj
         interp.err(node, "construction of %s (no contract for __init__)" % cls.qual)
 
     def local_class(self, interp, node, env):
